@@ -185,6 +185,12 @@ Theorem boundary_function_routes : forall (val : list Qc -> Qc) axis fixed xs, (
   bf_call (fun x => val (rev x)) axis fixed xs = bf_grid val axis fixed (rev xs).
 Proof. exact boundary_function_routes_l. Qed.
 
+(* _BoundaryFunction.grid_jacobian (keep_normal=False) removes exactly the derivative along kvs[axis] *)
+Theorem boundary_function_drops_normal : forall f us c axis, (axis < sdim f)%nat ->
+  length (g_jac f us c) = sdim f
+  /\ nth (length (g_jac f us c) - axis - 1) (g_jac f us c) 0 = g_dir f 1 us (unitv (sdim f) axis) c.
+Proof. exact boundary_function_drops_normal_l. Qed.
+
 (* ---- circular arcs, over any field ------------------------------------------------------ *)
 
 Section ArcProps.
@@ -274,6 +280,7 @@ Print Assumptions tensor_product_spec.
 Print Assumptions bdspec_names.
 Print Assumptions boundary_is_trace.
 Print Assumptions boundary_function_routes.
+Print Assumptions boundary_function_drops_normal.
 Print Assumptions arc3_on_circle.
 Print Assumptions arc_segment_on_circle.
 Print Assumptions arc_segment_endpoints.
